@@ -498,3 +498,86 @@ func Equal(a, b *Tx, extended bool) string {
 func (t *Tx) String() string {
 	return fmt.Sprintf("tx{v=%d ins=%d outs=%d lt=%d}", t.Version, len(t.Ins), len(t.Outs), t.LockTime)
 }
+
+// ---------------------------------------------------------------- scanning
+
+// Scan walks b the way a sequential decoder of the given kind ("tx", "list",
+// "in", "in-ext", "out") would and returns every varint it reads before the
+// data runs out, including a final length whose payload is missing. It is used
+// by generators to know which lengths and counts a byte string *claims*; it
+// never allocates from them. For transactions the extended format is detected
+// loosely (input count 0 and output count 0 in any width followed by
+// 00 00 00 EF), which coincides with the literal marker for minimal varints.
+func Scan(kind string, b []byte) []Field {
+	d := &dec{b: b}
+	switch kind {
+	case "tx":
+		d.scanTx()
+	case "list":
+		if n, err := d.varint("list-count"); err == nil {
+			for i := uint64(0); i < n; i++ {
+				if !d.scanTx() {
+					break
+				}
+			}
+		}
+	case "in":
+		d.in(false)
+	case "in-ext":
+		d.in(true)
+	case "out":
+		d.out()
+	}
+	return d.fs
+}
+
+func (d *dec) scanTx() bool {
+	if _, err := d.u32(); err != nil {
+		return false
+	}
+	f0 := len(d.fs)
+	nin, err := d.varint("in-count")
+	if err != nil {
+		return false
+	}
+	extended := false
+	var nout uint64
+	haveOut := false
+	if nin == 0 {
+		if nout, err = d.varint("out-count"); err != nil {
+			return false
+		}
+		haveOut = true
+		if nout == 0 {
+			lt, err := d.take(4)
+			if err != nil {
+				return false
+			}
+			if !(lt[0] == 0 && lt[1] == 0 && lt[2] == 0 && lt[3] == 0xef) {
+				return true
+			}
+			extended, haveOut = true, false
+			d.fs = d.fs[:f0] // the two zero counts were the marker
+			if nin, err = d.varint("in-count"); err != nil {
+				return false
+			}
+		}
+	}
+	for i := uint64(0); i < nin; i++ {
+		if _, err := d.in(extended); err != nil {
+			return false
+		}
+	}
+	if !haveOut {
+		if nout, err = d.varint("out-count"); err != nil {
+			return false
+		}
+	}
+	for i := uint64(0); i < nout; i++ {
+		if _, err := d.out(); err != nil {
+			return false
+		}
+	}
+	_, err = d.take(4)
+	return err == nil
+}
